@@ -47,7 +47,7 @@ def run(tier, seed):
         for m in mism[:3]:
             res["broken"].append({"what": "correspondence: MuModel and the real mu.c disagree in lock-step", "scenario": "mu_mix",
                                   "seed": m["seed"], "detail": m["replay"]})
-    tiex = mu_common.tie(res, "muxfer_replay", "MuXferModel", [("cv_mix", {"VRT_MODE": m}, 80, 800) for m in (0, 1, 2, 4)] +
+    tiex = mu_common.tie(res, "muxfer_replay", "MuXferModel", [("cv_mix", {"VRT_MODE": m}, 80, 800) for m in (0, 1, 2, 3, 4, 7)] +
                          [("cv_mix", {"VRT_MODE": m, "VRT_GENERIC": 0}, 60, 600) for m in (5, 6)], tier, seed)
     # 2. oracle: shadow occupancy on every acquisition path, counting and binary semaphore flavours
     import scen_common
